@@ -163,6 +163,11 @@ class Report(object):
         for key, (e, cnt, detail) in sorted(self.known_hits.items()):
             print("KNOWN-FINDING: property=%s %s [%d occurrence(s) this run; e.g. %s]" % (
                 self.prop, e.get("what", key), cnt, detail[:160]))
+        rdir = os.path.join(VERIF, "replays", self.prop)
+        if os.path.isdir(rdir) and os.environ.get("VERIF_NO_EVIDENCE") != "1":
+            for fn in os.listdir(rdir):      # replay files of earlier runs are stale
+                if fn.endswith(".json"):
+                    os.unlink(os.path.join(rdir, fn))
         if not self.violations:
             return 0
         # write at most 10 distinct replay files (shortest first)
